@@ -20,9 +20,9 @@ RULE = (
     "Hypothesis-generated exception graphs as recipes: 1-6 nodes, each a class from a 37-entry catalogue (builtins incl. "
     "OSError family / UnicodeDecodeError / KeyError / StopIteration / ExceptionGroup, BaseException subclasses, "
     "module-level, nested, function-local, type()-created, name-shadowing and module-less classes, custom __init__ "
-    "signatures, taskiq's own errors), 0-3 args from JSON-native values (incl. >64-bit ints, nested containers) or 21 "
+    "signatures, taskiq's own errors), 0-3 args from JSON-native values (incl. >64-bit ints, nested containers) or 23 "
     "awkward ones (bytes, set, complex, datetime, Decimal, lambda, lock, generator, un-repr-able object, nan/inf, tuple, "
-    "int-keyed dict, str subclass, lone-surrogate text and key, NUL), cause / context edges to ANY node (shared nodes, "
+    "int-keyed dict, str subclass, lone-surrogate text and key, NUL, exception instances incl. ones that pickle but cannot be unpickled), cause / context edges to ANY node (shared nodes, "
     "self loops, cycles) and the suppress flag. Each graph is stored and loaded through JSON text, JSON dict and pickle. "
     "Oracle: (a) never raises; (b) the loaded error is a BaseException; (c) class resolvable + args strictly "
     "representable + cls(*args) rebuilds => same class and equal (JSON-normalised) args; (d) otherwise a stand-in "
